@@ -127,8 +127,15 @@ SchemeInputs ==
    Scheme("float", 10, "", "lower", 0, "e", "1.5e+10"), Scheme("float", 10, "", "upper", 0, "E", "1.5E+10"),
    Scheme("float", 10, "", "lower", 0, "f", "15000000000.5"), Scheme("float", 10, "", "lower", 0, "g", "1.5e-07")}
 
+(* numsuffix: a number spelling immediately followed by something else - a sign, a range, a letter, another *)
+(* number: where the literal ends is decided by the machine (and must be decided alike by the real lexer)   *)
+NumHeads == {"0xe", "0XE", "0x1e", "0x1E", "0xfe", "0xE1", "0x7ffffffffffffffe", "1e", "1e5", "1E5", "1.", "1.5", "1.5e", "0x", "7", "1_0", "0b1", "0e", ".5", "1e+", "2e-3"}
+NumTails == {"+1", "-1", "+a", "-0xE", "..2", ".5", "e+1", "E-1", "_", "x1", " +1", "+", "-", ".", "..", "e", "[0]", ")"}
+NumSuffixInputs == {[src |-> Chars(h \o t), m |-> [kind |-> "none"]] : h \in NumHeads, t \in NumTails}
+
 Inputs ==
   CASE LexFamily = "strlit" -> StrInputs
+    [] LexFamily = "numsuffix" -> NumSuffixInputs
     [] LexFamily = "bigvals" -> SchemeInputs
     [] LexFamily = "numlit" -> NumInputs
     [] LexFamily = "layout" -> LayoutInputs
